@@ -62,7 +62,7 @@ struct Case {
 
 static Case gen_case() {
   Case c;
-  c.fam = gen_family(6, true);
+  c.fam = gen_family(16, true);
   c.dupsort = weighted({60, 20, 20});
   c.nest = chance(25);
   bool nomerge = false;
@@ -133,14 +133,14 @@ static Result run_case(const Case &c) {
     MergeClos mc;
     mc.keep_log = false;
     struct mtbl_merger_options *mo = mtbl_merger_options_init();
-    if (c.merge) mtbl_merger_options_set_merge_func(mo, concat_merge, &mc);
+    if (c.merge) mtbl_merger_options_set_merge_func(mo, c.fam.merge_func(), &mc);
     if (c.dupsort) mtbl_merger_options_set_dupsort_func(mo, dupsort_bytewise, c.dupsort == 2 ? (void *)1 : nullptr);
     struct mtbl_merger *mg = mtbl_merger_init(mo);
     mtbl_merger_options_destroy(&mo);
     struct mtbl_merger *inner = nullptr;
     if (c.nest && ls.sources.size() >= 2) {
       struct mtbl_merger_options *io = mtbl_merger_options_init();
-      if (c.merge) mtbl_merger_options_set_merge_func(io, concat_merge, &mc);
+      if (c.merge) mtbl_merger_options_set_merge_func(io, c.fam.merge_func(), &mc);
       if (c.dupsort) mtbl_merger_options_set_dupsort_func(io, dupsort_bytewise, c.dupsort == 2 ? (void *)1 : nullptr);
       inner = mtbl_merger_init(io);
       mtbl_merger_options_destroy(&io);
@@ -154,7 +154,7 @@ static Result run_case(const Case &c) {
     const struct mtbl_source *src = mtbl_merger_source(mg);
 
     HistStats hs;
-    ValueCmp vcmp = c.merge ? token_cmp() : ValueCmp();
+    ValueCmp vcmp = c.merge ? c.fam.cmp() : ValueCmp();
     std::string e = run_history(src, model, c.iters, c.ops, hs, vcmp);
     if (!e.empty()) r.failf("%s", e.c_str());
     QueryStats qst;
